@@ -216,6 +216,12 @@ func elseIf(t *T, v int) string {
 }
 
 func condForms(t *T, v int) (out string) {
+	var (
+		// a documented declaration in front of an expanded call
+		seen int // with a trailing comment
+	)
+	seen += hMut(v)
+	out += fmt.Sprint(seen)
 	if v > 2 && hUsesLimit(v) {
 		out += "A"
 	} else {
